@@ -496,3 +496,24 @@ def near_region_bounds(rng, P, models=('simple', '6node')):
         pl = list(P['setup'].get('axial_plane') or [])
         P['setup']['axial_plane'] = sorted(pl + [z + d])
     return d
+
+
+def thin_top_region(rng, P, tname, models=('simple', '6node')):
+    """A top axial region no thicker than an axial step (the last step of
+    the sweep is its only one): the last upper region of the type (or its
+    bundle) ends `d` below the core top and a further region fills the
+    rest."""
+    t = P['types'][tname]
+    L = P['length']
+    d = float(choose(rng, [0.001, 0.0025, 0.005, 0.01]))
+    regs = t.setdefault('AxialRegion', {})
+    ups = sorted((k for k in regs if k.startswith('up')),
+                 key=lambda k: regs[k]['z_lo'])
+    if ups:
+        if regs[ups[-1]]['z_lo'] >= L - d - 0.01:
+            return None
+        regs[ups[-1]]['z_hi'] = L - d
+    elif any(v['z_hi'] >= L - d - 0.01 for v in regs.values()):
+        return None
+    regs['up%d' % len(ups)] = _ur(rng, L - d, L, models)
+    return d
